@@ -22,6 +22,9 @@ import (
 
 type c14World struct {
 	hub, items *world.Store
+	// things / thingsExt: a parent store and an EXTENDED child store; only some things carry extended data, the
+	// others (several in a row, before, between and after them) must be skipped by the child's valid-id cursor
+	things, thingsExt *world.Store
 	rolesIdx   boltz.SetReadIndex
 	labelsIdx  boltz.SetReadIndex
 	lh         boltz.LinkCollection
@@ -52,6 +55,11 @@ func newC14World() *c14World {
 	symRLH := w.items.AddFkSetSymbol("rhubs", w.hub)
 	w.rh = w.hub.AddRefCountedLinkCollection(symRHL, symRLH)
 	w.items.AddRefCountedLinkCollection(symRLH, symRHL)
+	w.things = world.NewStore(&world.Spec{EntityType: "things", BasePath: []string{"root"}, Fields: []world.Field{{Name: "label", Kind: world.KString}}})
+	w.things.AddIdSymbol("id", ast.NodeTypeString)
+	w.thingsExt = world.NewStore(&world.Spec{Parent: w.things, ChildPath: []string{"ext"}, Extended: true, Fields: []world.Field{
+		{Name: "label", Kind: world.KString}, {Name: "x", Kind: world.KStringP, Child: true}}})
+	w.things.GrantSymbols(w.thingsExt)
 	w.dir = explore.TmpDir("c14")
 	db, err := boltz.Open(w.dir+"/c14.db", "root")
 	if err != nil {
@@ -62,6 +70,7 @@ func newC14World() *c14World {
 		h := &errorz.ErrorHolderImpl{}
 		w.hub.InitializeIndexes(ctx.Tx(), h)
 		w.items.InitializeIndexes(ctx.Tx(), h)
+		w.things.InitializeIndexes(ctx.Tx(), h)
 		return h.GetError()
 	})
 	if err != nil {
@@ -69,6 +78,9 @@ func newC14World() *c14World {
 	}
 	return w
 }
+
+// c14ParentOnly: ids of things without extended data - two in a row before, between and after the candidate ids
+var c14ParentOnly = []string{"!1", "!2", "a!", "a!!", "aa", "aaa", "c", "d"}
 
 func (w *c14World) close() {
 	_ = w.db.Close()
@@ -194,6 +206,15 @@ func (w *c14World) populate(ctx boltz.MutateContext, E []string) error {
 			return err
 		}
 		if _, err := w.rh.IncrementLinkCount(tx, []byte("H"), []byte(id)); err != nil {
+			return err
+		}
+		x := "x"
+		if err := w.thingsExt.Create(ctx, world.NewRec("things", id).With("label", "L").With("x", x)); err != nil {
+			return err
+		}
+	}
+	for _, id := range c14ParentOnly {
+		if err := w.things.Create(ctx, world.NewRec("things", id).With("label", "L")); err != nil {
 			return err
 		}
 	}
@@ -343,6 +364,12 @@ func (w *c14World) kinds(E []string) []c14Kind {
 	}, nil})
 	add(c14Kind{"Store.IterateIds", false, "seek", nonEmpty, func(tx *bbolt.Tx) ast.SetCursor { return w.items.IterateIds(tx, ast.BoolNodeTrue) }})
 	add(c14Kind{"Store.IterateValidIds", false, "seek", nonEmpty, func(tx *bbolt.Tx) ast.SetCursor { return w.items.IterateValidIds(tx, ast.BoolNodeTrue) }})
+	add(c14Kind{"extended child store IterateValidIds (parent-only rows in runs of two around the set)", false, "seek", nonEmpty, func(tx *bbolt.Tx) ast.SetCursor {
+		return w.thingsExt.IterateValidIds(tx, ast.BoolNodeTrue)
+	}})
+	add(c14Kind{"extended child store IterateIds (every parent row)", false, "seek", func([]string) []string { return append(append([]string{}, Ep...), c14ParentOnly...) }, func(tx *bbolt.Tx) ast.SetCursor {
+		return w.thingsExt.IterateIds(tx, ast.BoolNodeTrue)
+	}})
 	add(c14Kind{"Store.IterateIds(filter false)", false, "seek", func([]string) []string { return nil }, func(tx *bbolt.Tx) ast.SetCursor { return w.items.IterateIds(tx, ast.NewBoolConstNode(false)) }})
 	add(c14Kind{"ast.NewFilteredCursor(len<=1)", false, "", func([]string) []string {
 		var out []string
